@@ -311,3 +311,8 @@ mod tests {
         assert_eq!(result.len(), 0);
     }
 }
+
+// verification hook (guard: cfg(kani)); contract harnesses live outside the repository
+#[cfg(kani)]
+#[path = "/verif/kani/ntp_proto/algorithm/kalman/select.rs"]
+mod verif;
